@@ -165,6 +165,26 @@ theorem C05_wire_device_signature_bound (resp transcript : Cbor) (ikey : Option 
 theorem C05_wire_bytes_eq (t : Cbor) (d : Bytes) (n : Cbor) :
     deviceAuthBytes t (.text d) n = deviceAuthenticationBytes t d n := rfl
 
+/-- what any signature the model's verifier accepts looks like: exactly 64 bytes r ‖ s with 0 < r, s < n, under
+a key that is a point of the curve - truncated, extended, zero or out-of-range signatures and
+off-curve keys are refused whatever the message (the malformed-signature rows of the C03 / C05 / C11
+correspondence are instances) -/
+theorem C05_wire_accepted_signature_shape (x y : Nat) (msg sig : Bytes) (h : ecdsaVerify x y msg sig = true) :
+    sig.length = 64 ∧ 0 < fromBe (sig.take 32) ∧ fromBe (sig.take 32) < P256.n ∧
+    0 < fromBe (sig.drop 32) ∧ fromBe (sig.drop 32) < P256.n ∧ P256.onCurve x y = true := by
+  unfold ecdsaVerify at h
+  split at h
+  · simp at h
+  · rename_i hlen
+    dsimp only at h
+    split at h
+    · simp at h
+    · rename_i hr
+      simp only [bne_iff_ne, ne_eq, Decidable.not_not] at hlen
+      simp only [Bool.or_eq_true, beq_iff_eq, decide_eq_true_eq, Bool.not_eq_true', not_or, Nat.not_le, Bool.not_eq_false] at hr
+      obtain ⟨⟨⟨⟨h1, h2⟩, h3⟩, h4⟩, h5⟩ := hr
+      exact ⟨hlen, by omega, h2, by omega, h4, h5⟩
+
 end Wire
 
 /-- non-vacuity -/
